@@ -32,7 +32,7 @@ def falsify_C15(ctx):
     cases = []
     for i in range(n):
         big = rng.random() < 0.12
-        c = streams.gen_poisson(rng, big=big)
+        c = streams.gen_poisson(rng, big=big) if rng.random() < 0.85 else streams.gen_poisson(rng, rare=True)
         if c[0] * c[4] > 700 * c[1]:      # would never return (exp underflow); two fixed probes cover it
             c = (c[0], c[1], c[2], c[3], max(1, (650 * c[1]) // c[0]))
         cases.append(c)
@@ -41,11 +41,11 @@ def falsify_C15(ctx):
     ops = [f"pois_na {a} {b} {c} {d} {e}" for a, b, c, d, e in cases]
     res = real(ops)
     cex, samples, nontrivial = [], [], set()
-    dist = {"mean<10": 0, "10<=mean<100": 0, "mean>=100": 0, "ties_ignored": 0}
+    dist = {"mean<0.3": 0, "mean<10": 0, "10<=mean<100": 0, "mean>=100": 0, "ties_ignored": 0}
     prevq = {}
     for (rn, rd, en, ed, delta), op, r in zip(cases, ops, res):
         mean = Fraction(rn * delta, rd)
-        dist["mean<10" if mean < 10 else "10<=mean<100" if mean < 100 else "mean>=100"] += 1
+        dist["mean<0.3" if mean < Fraction(3, 10) else "mean<10" if mean < 10 else "10<=mean<100" if mean < 100 else "mean>=100"] += 1
         exact, info = quantile_exact(rn, rd, en, ed, delta)
         if exact > 0:
             nontrivial.add(op)
@@ -58,7 +58,9 @@ def falsify_C15(ctx):
             k = min(int(r), exact)
             q2, inf2 = quantile_exact(rn, rd, en, ed, delta)
             prev, cum, thr = info
-            near = abs(cum - thr) <= Decimal("1e-9") or abs(prev - thr) <= Decimal("1e-9")
+            # (means below 1: a handful of terms, f64 error ~1e-16 — the tolerance shrinks with epsilon)
+            tol = Decimal("1e-9") if mean >= 1 else min(Decimal("1e-9"), Decimal(en) / Decimal(ed) / 1000)
+            near = abs(cum - thr) <= tol or abs(prev - thr) <= tol
             if abs(int(r) - exact) == 1 and near:
                 dist["ties_ignored"] += 1
                 continue
@@ -82,5 +84,5 @@ def falsify_C15(ctx):
                             "mean": float(Fraction(rn * db, rd)), "mean_at_least_100": Fraction(rn * db, rd) >= 100})
                 break
     return {"cases": len(cases) + m2, "nontrivial": len(nontrivial),
-            "rule": "random rates (rationals), epsilons 1e-1..1e-10 and interval lengths, plus fixed probes with means in the hundreds and thousands: real number_arrivals vs the exact quantile computed with 120-digit decimal arithmetic (differences of 1 with the cumulative probability within 1e-9 of the threshold are counted as rounding ties); zero at zero and monotonicity in delta on the real code; non-trivial = distinct op with a positive quantile",
+            "rule": "random rates (rationals), epsilons 1e-1..1e-10 and interval lengths, a family of rare-event processes (means 1e-5..0.3) with epsilons down to 1e-12, plus fixed probes with means in the hundreds and thousands: real number_arrivals vs the exact quantile computed with 120-digit decimal arithmetic (differences of 1 with the cumulative probability within 1e-9 of the threshold are counted as rounding ties); zero at zero and monotonicity in delta on the real code; non-trivial = distinct op with a positive quantile",
             "counterexamples": cex, "samples": samples, "distribution": dist}
